@@ -12,6 +12,21 @@ import (
 type vPool struct {
 	keys  [][]byte
 	canon []int // canon[i] = smallest j with keys[j] == keys[i]
+	nhot  int   // number of leading keys the symbolic operations choose from (0 = all); the rest is the crowd
+}
+
+// hot: how many keys the symbolic operations choose from. Param crowd=N appends N concrete keys ("c000"...) that
+// vPrefill writes once and nobody touches afterwards: the index holds many entries (B-tree splits, skip-list
+// levels, all shards populated, long merged iterations) while the path count stays that of the hot keys.
+func (kp *vPool) hot() int {
+	if kp.nhot > 0 {
+		return kp.nhot
+	}
+	return len(kp.keys)
+}
+
+func vCrowdKey(i int) []byte {
+	return []byte{'c', byte('0' + i/100), byte('0' + i/10%10), byte('0' + i%10)}
 }
 
 // vConcreteKeyFamilies: concrete pools built around representation boundaries that short symbolic keys cannot
@@ -25,7 +40,7 @@ var vConcreteKeyFamilies = [][]string{
 	{"\xff\xff\xff\xff\xff\xff\xff\xfe", "\xff\xff\xff\xff\xff\xff\xff\xff", "\xff\xff\xff\xff\xff\xff\xff\xff\x00"},
 }
 
-func verifKeyPool(p int, maxLen int) *vPool {
+func verifKeyPool0(p int, maxLen int) *vPool {
 	if f := verifParam("ckeys"); f > 0 {
 		fam := vConcreteKeyFamilies[f-1]
 		kp := &vPool{}
@@ -50,6 +65,18 @@ func verifKeyPool(p int, maxLen int) *vPool {
 			if len(kp.keys[j]) == len(kp.keys[i]) {
 				verifAssume(verifBytesLess(kp.keys[j], kp.keys[i]))
 			}
+		}
+	}
+	return kp
+}
+
+func verifKeyPool(p int, maxLen int) *vPool {
+	kp := verifKeyPool0(p, maxLen)
+	if n := verifParam("crowd"); n > 0 {
+		kp.nhot = len(kp.keys)
+		for i := 0; i < n; i++ {
+			kp.keys = append(kp.keys, vCrowdKey(i))
+			kp.canon = append(kp.canon, len(kp.keys)-1)
 		}
 	}
 	return kp
@@ -259,9 +286,17 @@ func verifValue(name string) []byte {
 // With a DataFileSize of about one record every Put rotates, so the directory holds n data files
 // (ids up to n-1: two-digit ids, ids beyond a shard/array size, ...) without any branching.
 func vPrefill(db *DB, kp *vPool, m *vModel, id string) {
+	for i := kp.hot(); i < len(kp.keys) && kp.nhot > 0; i++ {
+		v := []byte{byte(i)}
+		verifAssert(db.Put(kp.keys[i], v) == nil, id+".crowd-put-err")
+		m.put(i, v)
+	}
+	if kp.nhot > 0 {
+		verifReach("crowd")
+	}
 	n := verifParam("fill")
 	for i := 0; i < n; i++ {
-		ki := i % len(kp.keys)
+		ki := i % kp.hot()
 		v := verifBytes("fill", 1)
 		verifAssert(db.Put(kp.keys[ki], v) == nil, id+".fill-put-err")
 		m.put(ki, v)
